@@ -68,12 +68,29 @@ Record ms := MS {
   m_vnow : list Z;             (* vouching the node still knows about (announcements are forgotten at restart) *)
   m_vpersist : list Z;         (* delivered as new from the trusted peer or locally: survives a restart *)
   m_proofs : list (Z * Z);     (* the block of the last merkle proof notified for a transaction (newest first) *)
+  m_body : list (Z * list Z);  (* the bodies of the transactions that were processed as unconfirmed (newest first) *)
 }.
 
-Definition ms_init : ms := MS [] [] [] [] [] [] [] [] [] 0 false [0] [] [] [].
+Definition ms_init : ms := MS [] [] [] [] [] [] [] [] [] 0 false [0] [] [] [] [].
+
+Definition lookup_body (m : ms) (t : Z) : option (list Z) :=
+  match find (fun e => fst e =? t) (m_body m) with Some e => Some (snd e) | None => None end.
+
+(* After a restart the node holds the bodies of the transactions it tracks as unconfirmed again (load puts them
+   back into the mempool, in ascending txid order - see TxFlow.reload). *)
+Definition sort_z (l : list Z) : list Z := map fst (sort_kv (map (fun t => (t, tt)) l)).
+Definition reload_pool (m : ms) : pool :=
+  omap (fun t => match lookup_body m t with
+                 | Some b => if zlen b =? 0 then None else Some (t, b)
+                 | None => None
+                 end) (sort_z (m_live m)).
 
 Definition lookup_proof (m : ms) (t : Z) : option Z :=
   match find (fun e => fst e =? t) (m_proofs m) with Some e => Some (snd e) | None => None end.
+
+(* the last proof notified for t is for a block of the chain *)
+Definition confirmed_m (m : ms) (t : Z) : bool :=
+  match lookup_proof m t with Some p => mem p (m_chain m) | None => false end.
 
 (* Reorganisations.  A notification is "unconfirmed" when it carries no merkle proof or the proof of a block
    that is not (no longer) in the chain the monitor follows.  A delivered transaction is in limbo when the block
@@ -191,7 +208,7 @@ Definition note_event (m : ms) (e : ev) : ms :=
   let seen' := if (e_kind e =? 1) && negb confirmed then (t, m_clock m) :: m_seen m else m_seen m in
   let proofs' := if e_proof e =? -1 then m_proofs m else (t, e_proof e) :: m_proofs m in
   MS (m_pool m) delivered' live' seen' (m_vouched m) (m_conflicted m) unsafe' safe' (m_local m)
-     (m_clock m) (m_insync m) (m_chain m) (m_vnow m) (m_vpersist m) proofs'.
+     (m_clock m) (m_insync m) (m_chain m) (m_vnow m) (m_vpersist m) proofs' (m_body m).
 
 (* ---- per-operation expectations ---- *)
 
@@ -208,19 +225,24 @@ Definition tx_step (delay : Z) (m : ms) (t : Z) (body : list Z) (rel : bool) (s 
   let vnow' := match s with SUntrusted => m_vnow m | _ => add_z t (m_vnow m) end in
   if held (m_pool m) t then
     (0, MS (m_pool m) (m_delivered m) (m_live m) (m_seen m) vouched' (m_conflicted m) (m_unsafe m)
-           (m_safe m) (m_local m) (m_clock m) (m_insync m) (m_chain m) vnow' (m_vpersist m) (m_proofs m))
+           (m_safe m) (m_local m) (m_clock m) (m_insync m) (m_chain m) vnow' (m_vpersist m) (m_proofs m) (m_body m))
   else
     let cs := conflicting_held (m_pool m) t body in
-    let pool' := if zlen body =? 0 then m_pool m else m_pool m ++ [(t, body)] in
+    (* a transaction that was delivered with its confirmation in a block of the chain is not held (the node
+       takes it out of the mempool again), and a conflict seen while it is confirmed is recorded for the
+       conflicting unconfirmed transactions only *)
+    let cf := confirmed_m m t in
+    let pool' := if cf || (zlen body =? 0) then m_pool m else m_pool m ++ [(t, body)] in
     let conflicted' := if zlen cs =? 0 then m_conflicted m
-                       else fold_left (fun l c => add_z c l) cs (add_z t (m_conflicted m)) in
+                       else fold_left (fun l c => add_z c l) cs (if cf then m_conflicted m else add_z t (m_conflicted m)) in
     let delivered_now := has_ev es (fun e => (e_kind e =? 1) && (e_t e =? t)) in
     let vpersist' := match s with
                      | SUntrusted => m_vpersist m
                      | _ => if delivered_now then add_z t (m_vpersist m) else m_vpersist m
                      end in
     let m' := MS pool' (m_delivered m) (m_live m) (m_seen m) vouched' conflicted' (m_unsafe m)
-                 (m_safe m) local' (m_clock m) (m_insync m) (m_chain m) vnow' vpersist' (m_proofs m) in
+                 (m_safe m) local' (m_clock m) (m_insync m) (m_chain m) vnow' vpersist' (m_proofs m)
+                 ((t, body) :: m_body m) in
     (* C05: the new tx, if delivered now, and every live conflicting tx are reported unsafe *)
     let bad_new := has_ev es (fun e => (e_kind e =? 1) && (e_t e =? t) && negb (zlen cs =? 0) && negb (e_unsafe e)) in
     let bad_old := existsb (fun c => mem c (m_live m) &&
@@ -262,7 +284,7 @@ Definition block_step (m : ms) (b : Z) (txs : list btx) (es : list ev) : Z * ms 
       txs in
   ((if negb (code =? 0) then code else if bad_tx then 153 else 0),
    MS pool' (m_delivered m) (m_live m) (m_seen m) (m_vouched m) conflicted' (m_unsafe m) (m_safe m)
-      (m_local m) (m_clock m) (m_insync m) (m_chain m ++ [b]) (m_vnow m) (m_vpersist m) (m_proofs m)).
+      (m_local m) (m_clock m) (m_insync m) (m_chain m ++ [b]) (m_vnow m) (m_vpersist m) (m_proofs m) (m_body m)).
 
 (* the delay checker runs: every live tx whose conditions hold is reported safe now (C07 liveness) *)
 Definition delay_step (delay : Z) (m : ms) (es : list ev) : Z :=
@@ -287,7 +309,7 @@ Definition obs_events (o : op) (ob : obs) : obs :=
 
 Definition set_insync (m : ms) (b : bool) : ms :=
   MS (m_pool m) (m_delivered m) (m_live m) (m_seen m) (m_vouched m) (m_conflicted m)
-     (m_unsafe m) (m_safe m) (m_local m) (m_clock m) b (m_chain m) (m_vnow m) (m_vpersist m) (m_proofs m).
+     (m_unsafe m) (m_safe m) (m_local m) (m_clock m) b (m_chain m) (m_vnow m) (m_vpersist m) (m_proofs m) (m_body m).
 
 (* The chain is reverted to the held block prev.  The transactions whose confirming block is orphaned are in
    limbo from now on.  What the node knew about them as unconfirmed transactions (local submission, vouching
@@ -299,7 +321,7 @@ Definition revert_ms (m : ms) (prev : Z) : ms :=
   let orphaned := fun t => match lookup_proof m t with Some p => mem p (m_chain m) && negb (mem p c) | None => false end in
   let keep := fun l : list Z => filter (fun t => orphaned t = false) l in
   MS (m_pool m) (m_delivered m) (m_live m) (m_seen m) (m_vouched m) (m_conflicted m) (m_unsafe m) (m_safe m)
-     (keep (m_local m)) (m_clock m) false c (keep (m_vnow m)) (keep (m_vpersist m)) (m_proofs m).
+     (keep (m_local m)) (m_clock m) false c (keep (m_vnow m)) (keep (m_vpersist m)) (m_proofs m) (m_body m).
 
 (* what the headers handler does with the header of block b on parent prev: the bookkeeping after it and
    whether the block is then requested and processed *)
@@ -338,17 +360,18 @@ Definition monitor_step (delay : Z) (m : ms) (o : op) (ob : obs) : Z * ms :=
             (0, if trusted && m_insync m
                 then MS (m_pool m) (m_delivered m) (m_live m) (m_seen m) (add_z t (m_vouched m)) (m_conflicted m)
                         (m_unsafe m) (m_safe m) (m_local m) (m_clock m) (m_insync m) (m_chain m)
-                        (add_z t (m_vnow m)) (m_vpersist m) (m_proofs m)
+                        (add_z t (m_vnow m)) (m_vpersist m) (m_proofs m) (m_body m)
                 else m)
         | OAdvance dt => (0, MS (m_pool m) (m_delivered m) (m_live m) (m_seen m) (m_vouched m) (m_conflicted m)
                                (m_unsafe m) (m_safe m) (m_local m) (m_clock m + dt) (m_insync m) (m_chain m)
-                               (m_vnow m) (m_vpersist m) (m_proofs m))
+                               (m_vnow m) (m_vpersist m) (m_proofs m) (m_body m))
         | OSetInSync b => (0, set_insync m b)
         | ORestart =>
-            (* the node forgets held bodies and announcements; what it delivered stays delivered *)
-            (0, MS [] (m_delivered m) (m_live m) (m_seen m) (m_vouched m) (m_conflicted m)
+            (* the node forgets announcements and the bodies of transactions it does not track; what it
+               delivered stays delivered *)
+            (0, MS (reload_pool m) (m_delivered m) (m_live m) (m_seen m) (m_vouched m) (m_conflicted m)
                    (m_unsafe m) (m_safe m) (m_local m) (m_clock m) false (m_chain m) (m_vpersist m) (m_vpersist m)
-                   (m_proofs m))
+                   (m_proofs m) (m_body m))
         | OGetTx t => ((if mem t (m_delivered m) && negb (c =? OK) then 171 else 0), m)  (* C11: stored copy *)
         | OUnconf | OBlockTxs _ => (0, m)
         end in
@@ -459,37 +482,19 @@ Definition header_node (n : node) (o : op) : option node :=
 Definition accepts (n : node) (b prev : Z) (valid : bool) : bool :=
   negb (in_chain n b) && (default (-99) (last (chain n)) =? prev) && valid.
 
-(* R: the transactions that were sent to the node again while confirmed in the chain (they sit in the mempool
-   as confirmed transactions, and conflicts seen from then on are not recorded for them) *)
-Definition op_ok (n : node) (R : list Z) (o : op) : bool :=
-  (* no step delivers, as new and safe, a transaction whose stored state is unsafe.  Excludes two defects of
-     the code on reorganisations (reported): the local re-submission of a transaction whose confirming block was
-     orphaned and that was unsafe (it is delivered with safe and unsafe both set), and its inclusion in a block
-     of the new branch before it was announced again (delivered as new, safe, the unsafe flag lost) *)
-  forallb (fun e => if e_kind e =? 1
-                    then match states n !! e_t e with Some s => negb (s_unsafe s && e_safe e) | None => true end
-                    else true) (step_events o (snd (step n o)))
-  && match o, header_node n o with
-     | (OBlock b prev txs valid | OReorg b prev txs valid), Some n' =>
-         (* the block of a transaction that was sent again while confirmed is not orphaned (reported defects:
-            such a transaction stays in the mempool; if its block is orphaned it is not notified when a block
-            of the new branch confirms it while in sync, and a conflict recorded while it was confirmed is lost) *)
-         forallb (confirmed n') R
-         (* a block the node accepts holds no transaction that is confirmed in the chain it extends *)
-         && (if accepts n' b prev valid then forallb (fun x => negb (confirmed n' (fst (fst x)))) txs else true)
-     | _, _ => true
-     end.
-
-Definition next_R (n : node) (R : list Z) (o : op) : list Z :=
-  match o with
-  | OTx t _ _ s => if (match s with STrusted => insync n | _ => true end) && confirmed n t then add_z t R else R
-  | _ => R
+(* a block the node accepts holds no transaction that is confirmed in the chain it extends (a chain holds a
+   transaction once); after a reorganisation the transactions of the orphaned blocks may be confirmed again *)
+Definition op_ok (n : node) (o : op) : bool :=
+  match o, header_node n o with
+  | (OBlock b prev txs valid | OReorg b prev txs valid), Some n' =>
+      if accepts n' b prev valid then forallb (fun x => negb (confirmed n' (fst (fst x)))) txs else true
+  | _, _ => true
   end.
 
-Fixpoint hyp_from (n : node) (R : list Z) (ops : list op) : bool :=
+Fixpoint hyp_from (n : node) (ops : list op) : bool :=
   match ops with
   | [] => true
-  | o :: ops' => op_ok n R o && hyp_from (fst (step n o)) (next_R n R o) ops'
+  | o :: ops' => op_ok n o && hyp_from (fst (step n o)) ops'
   end.
 
 Definition flow_valid (delay : Z) (ops : list op) : bool :=
@@ -503,7 +508,7 @@ Definition flow_valid (delay : Z) (ops : list op) : bool :=
                        | _ => true
                        end) ops
   && blocks_consistent (block_msgs ops)               (* a block id always comes with the same content *)
-  && hyp_from (n_init delay) [] ops.
+  && hyp_from (n_init delay) ops.
 
 (* the monitor never objects with a code of the given set *)
 Definition never_objects (delay : Z) (codes : list Z) (ops : list op) : Prop :=
